@@ -83,6 +83,8 @@ func ParseCFF2(src []byte) (*CFF2, error) {
 	}
 
 	out.fonts = make([]privateFonts, len(fdIndex))
+	// the font dicts may share their local subroutines: parse each INDEX once
+	parsedSubrs := make(map[int32][][]byte)
 	// private dict reference
 	for i, font := range fdIndex {
 		var fd fontDict2
@@ -107,10 +109,15 @@ func ParseCFF2(src []byte) (*CFF2, error) {
 		out.fonts[i].defaultVSIndex = pd.vsindex
 		// if required, parse the local subroutines
 		if pd.subrsOffset != 0 {
-			out.fonts[i].localSubrs, err = parseIndex2(src, int(pd.subrsOffset))
-			if err != nil {
-				return nil, err
+			subrs, done := parsedSubrs[pd.subrsOffset]
+			if !done {
+				subrs, err = parseIndex2(src, int(pd.subrsOffset))
+				if err != nil {
+					return nil, err
+				}
+				parsedSubrs[pd.subrsOffset] = subrs
 			}
+			out.fonts[i].localSubrs = subrs
 		}
 	}
 
